@@ -8,6 +8,7 @@ import (
 	"io"
 	"os"
 	"runtime"
+	"slices"
 	"strconv"
 	"strings"
 	"sync"
@@ -416,14 +417,22 @@ func (p *Process) stopProcess(cancelReadinessFuncs bool) error {
 	verifYieldP(p, "stop.afterCancel")
 	if !p.isRunning() {
 		log.Debug().Msgf("process %s is in state %s not shutting down", p.getName(), p.getStatusName())
-		// prevent pending process from running
-		if p.isOneOfStates(types.ProcessStatePending) {
-			p.onProcessEnd(types.ProcessStateTerminating)
+		// prevent pending process from running. Only a process that is still Pending is
+		// moved to Terminating, atomically: its own goroutine may be ending it at this very
+		// moment (Skipped, Completed, Error) and that state must not be overwritten
+		if p.compareAndSetState(types.ProcessStateTerminating, types.ProcessStatePending) {
+			p.releaseOnEnd()
+			p.markDone()
 		}
 		return nil
 	}
 	verifYieldP(p, "stop.beforeTerminating")
-	p.setState(types.ProcessStateTerminating)
+	if !p.compareAndSetState(types.ProcessStateTerminating,
+		types.ProcessStateRunning, types.ProcessStateLaunched, types.ProcessStateLaunching) {
+		// the command ended by itself in the meantime and the process has reached its
+		// final state: there is nothing left to terminate
+		return nil
+	}
 	p.stopProbes()
 	if cancelReadinessFuncs {
 		if p.readyProber != nil {
@@ -508,6 +517,13 @@ func (p *Process) onProcessStart() {
 }
 
 func (p *Process) onProcessEnd(state string) {
+	p.releaseOnEnd()
+	verifYieldP(p, "end.beforeState")
+	p.setState(state)
+	p.markDone()
+}
+
+func (p *Process) releaseOnEnd() {
 	if isStringDefined(p.procConf.LogLocation) {
 		p.logger.Close()
 	}
@@ -524,8 +540,9 @@ func (p *Process) onProcessEnd(state string) {
 	// release process_log_ready waiters: the ready line will not be printed any more
 	// (no effect if the line was already seen)
 	p.readyLogCancelFn(fmt.Errorf("process %s ended before its ready log line", p.getName()))
-	verifYieldP(p, "end.beforeState")
-	p.setState(state)
+}
+
+func (p *Process) markDone() {
 	p.updateProcState()
 	// nothing of this process will be launched any more: release process_started waiters
 	p.runCancelFn()
@@ -738,6 +755,18 @@ func (p *Process) setState(state string) {
 	defer p.stateMtx.Unlock()
 	p.procState.Status = state
 	p.onStateChange(state)
+}
+
+// compareAndSetState moves the process to state to only if it is in one of the from states
+func (p *Process) compareAndSetState(to string, from ...string) bool {
+	p.stateMtx.Lock()
+	defer p.stateMtx.Unlock()
+	if !slices.Contains(from, p.procState.Status) {
+		return false
+	}
+	p.procState.Status = to
+	p.onStateChange(to)
+	return true
 }
 
 func (p *Process) getState() *types.ProcessState {
